@@ -188,15 +188,38 @@ pub fn c09_script(r: &mut Rng, index: u64, _tier: Tier) -> (CaseCfg, Vec<Step>) 
         _ => {
             // fields that cannot be encoded (longer than 65535 bytes), lying payload closures
             cfg.tx = 300_000;
-            s.push(connect);
             let big = str_of(65536 + r.below(3), r);
-            match r.below(6) {
+            let which = r.below(16);
+            // fields of the CONNECT itself
+            match which {
+                10 => cfg.will = Some(WillSpec { topic: "w".into(), payload: vec![5; 65536 + r.below(3)], qos: 1, retain: false, props: vec![] }),
+                // (a will topic beyond the documented capacity is refused when the will is built)
+                11 => cfg.will = Some(WillSpec { topic: "w".into(), payload: vec![5; 65535], qos: 2, retain: true, props: vec![] }),
+                12 => cfg.will = Some(WillSpec { topic: "w".into(), payload: vec![5], qos: 0, retain: false, props: vec![Prop::ContentType(big.clone())] }),
+                13 => cfg.auth = Some(("u".into(), vec![6; 65536 + r.below(3)])),
+                14 => cfg.auth = Some((big.clone(), vec![6])),
+                _ => {}
+            }
+            if which >= 10 && which <= 14 {
+                cfg.rx = 300_000;
+            }
+            s.push(connect);
+            let small = |r: &mut Rng| r.below(3) as u8;
+            match which {
+                6 => s.push(Step::Unsubscribe(UnsubSpec { filters: vec![big], props: vec![], cancel_at: None })),
+                7 => s.push(Step::Unsubscribe(UnsubSpec { filters: vec!["a".into(), big, "b".into()], props: vec![], cancel_at: None })),
+                8 => s.push(Step::Publish(PubSpec { topic: "t".into(), payload: PayloadSpec::Fill { len: 3, tag: 1, ascii: false }, qos: small(r), retain: false, props: vec![if r.chance(1, 2) { Prop::UserProperty(big, "v".into()) } else { Prop::UserProperty("k".into(), big) }], correlate: None, cancel_at: None })),
+                9 => s.push(Step::Disconnect(DiscSpec { reason: Some(0), props: Some(vec![if r.chance(1, 2) { Prop::ReasonString(big) } else { Prop::UserProperty("k".into(), big) }]), cancel_at: None })),
+                15 => s.push(Step::Publish(PubSpec { topic: "t".into(), payload: PayloadSpec::Fill { len: 3, tag: 1, ascii: false }, qos: small(r), retain: false, props: vec![if r.chance(1, 2) { Prop::ResponseTopic(big) } else { Prop::CorrelationData(vec![8; 65536]) }], correlate: None, cancel_at: None })),
+                10..=14 => {}
+                _ => match r.below(6) {
                 0 => s.push(Step::Publish(PubSpec { topic: big, payload: PayloadSpec::Fill { len: 3, tag: 1, ascii: false }, qos: r.below(3) as u8, retain: false, props: vec![], correlate: None, cancel_at: None })),
                 1 => s.push(Step::Publish(PubSpec { topic: "t".into(), payload: PayloadSpec::Fill { len: 3, tag: 1, ascii: false }, qos: r.below(3) as u8, retain: false, props: vec![Prop::ContentType(big)], correlate: None, cancel_at: None })),
                 2 => s.push(Step::Publish(PubSpec { topic: "t".into(), payload: PayloadSpec::Fill { len: 3, tag: 1, ascii: false }, qos: r.below(3) as u8, retain: false, props: vec![], correlate: Some(vec![7; 65536]), cancel_at: None })),
                 3 => s.push(Step::Subscribe(SubSpec { filters: vec![FilterSpec { filter: big, max_qos: 0, no_local: false, rap: false, rh: 0 }], props: vec![], cancel_at: None })),
                 4 => s.push(Step::Publish(PubSpec { topic: "t".into(), payload: PayloadSpec::Lie { claim: 300_001 + r.below(1000) }, qos: r.below(3) as u8, retain: false, props: vec![], correlate: None, cancel_at: None })),
                 _ => s.push(Step::Publish(PubSpec { topic: "t".into(), payload: PayloadSpec::Fail, qos: r.below(3) as u8, retain: false, props: vec![], correlate: None, cancel_at: None })),
+                },
             }
             s.push(poll0());
             // the session stays usable
@@ -234,6 +257,9 @@ pub fn c10_script(r: &mut Rng, _index: u64, _tier: Tier) -> (CaseCfg, Vec<Step>)
     let small_mps = r.chance(1, 4);
     if small_mps {
         props.push(Prop::MaximumPacketSize(24));
+    } else if r.chance(1, 5) {
+        // a limit that restricts nothing (its low 16 bits are 0 or 1)
+        props.push(Prop::MaximumPacketSize(*r.pick(&[65_536u32, 65_537, 1 << 20, 1 << 24])));
     }
     let mut s = vec![];
     // one case in four: an earlier connection whose CONNACK carried some other Server Keep Alive
